@@ -131,6 +131,9 @@ func (d *Driver) Snapshot(ctx context.Context) (migrate.RestoreFunc, error) {
 		return nil, &migrate.NotCleanError{State: r, Reason: fmt.Sprintf("found table %q", r.Schemas[0].Tables[0].Name)}
 	}
 	return func(ctx context.Context) error {
+		// A replayed file may have opened a transaction without closing it (e.g. a statement following
+		// BEGIN has failed), and VACUUM cannot run from within one. The error returned if none is open is ignored.
+		_, _ = d.ExecContext(ctx, "ROLLBACK;")
 		for _, stmt := range []string{
 			"PRAGMA writable_schema = 1;",
 			"DELETE FROM sqlite_master WHERE type IN ('table', 'view', 'index', 'trigger');",
